@@ -324,7 +324,10 @@ func main() {
 	states := []string{"present", "missing", "file", "dangling"}
 	masks := []int{0, 255, 0b10101010, 0b01010101, 0b00001111, 0b11110000}
 	if *tier == "thorough" {
-		masks = append(masks, 0b11000011, 0b00111100, 0b10010110, 1, 2, 4, 8, 16, 32, 64, 128)
+		masks = masks[:0]
+		for m := 0; m < 256; m++ { // every presence combination under every directory fault
+			masks = append(masks, m)
+		}
 	}
 	for a := 0; a < 256; a++ {
 		if a == 0 {
